@@ -532,13 +532,19 @@ func (a *auth) powerLevelRules(ev *Ev) (bool, string) {
 				seen[k] = true
 				// the entries of the events map themselves are compared (D11 is about what it takes to send a
 				// third-party-invite event, not about who may rewrite its map entry)
-				raw := func(p PL) int64 {
+				// Where there is no entry the type falls back to events_default when sent as a message event and to
+				// state_default when sent as a state event: both effective levels are compared (D5), so that adding or
+				// removing an entry equal to one default is still judged as the change of the other.
+				raw := func(p PL, asState bool) int64 {
 					if l, ok := p.Events[k]; ok {
 						return l
 					}
+					if asState {
+						return p.StateDefault
+					}
 					return p.EventsDefault
 				}
-				pairs = append(pairs, pair{raw(old), raw(np), "events"})
+				pairs = append(pairs, pair{raw(old, false), raw(np, false), "events"}, pair{raw(old, true), raw(np, true), "events"})
 			}
 		}
 	}
@@ -629,7 +635,7 @@ func (a *auth) memberRules(ev *Ev) (bool, string) {
 			if k != "join_authorised_via_users_server" {
 				want = Obj
 			}
-			if v.K != want {
+			if v.K != want && !(k == "third_party_invite" && v.K == Null && newM == "invite") {
 				a.abstain = true
 			}
 		}
@@ -646,6 +652,9 @@ func (a *auth) memberRules(ev *Ev) (bool, string) {
 	var tpiEvent *Ev
 	if tpi != nil && tpi.K == Obj {
 		tok, _ := tpi.Get("signed").Get("token").Str()
+		if tok == "" {
+			a.abstain = true // the library reads an empty token as a missing one (5.3)
+		}
 		tpiEvent = a.get("m.room.third_party_invite", tok)
 		if tpiEvent == nil {
 			return false, "3:third-party-invite-event-missing"
@@ -682,6 +691,10 @@ func (a *auth) memberRules(ev *Ev) (bool, string) {
 	}
 	if target == a.create.Sender && newM == "join" && ev.Sender != target && len(ev.Prev) == 1 && ev.Prev[0] == a.create.ID {
 		a.abstain = true
+	}
+	if newM == "invite" && tpi != nil && tpi.K == Null {
+		// "if content has a third_party_invite property": it has, and there is no signed block in it
+		return false, "3:tpi-malformed"
 	}
 	if newM == "invite" && tpi != nil && tpi.K == Obj {
 		return a.thirdPartyInvite(ev, target, tpi, tpiEvent, oldM)
